@@ -13,6 +13,7 @@ Expression level
   * neither operand constant: `b > a` -> `a < b`, `b >= a` -> `a <= b`; operands of == / != ordered by shape (identifiers blanked)
   * `f'a' + f'b'` -> one f-string;  `X.split(s)[-1]` -> `X.rsplit(s, 1)[-1]`
   * tests: `E != 0`, `len(X) > 0`, `len(X) >= 1` -> `E` / `len(X)`; `E == 0` -> `not E` (E an int by construction)
+  * `map(f, X)` -> `(f(_m) for _m in X)`; `F([.. for ..])` -> `F(.. for ..)` for consumers of any iterable (join, set, sorted, any, ...)
 Statement level
   * `if c: x = True else: x = False` -> `x = c`, `if c: return True else: return False` -> `return c` (c boolean-typed)
   * a bare `return` in tail position of a function that returns no value is dropped
@@ -27,7 +28,9 @@ Statement level
     (negative = not / != / not in / is not / >= / <= / a disjunction whose negation is positive)
   * `X = []` + `for t in it: [if c:] X.append(e)` -> `X = [e for t in it if c]` (likewise dict / set), when the
     loop variable is not read afterwards in the block
-  * `X = {..}` directly followed by `X['k'] = v` (call-free values) -> the key joins the display
+  * `X = {..}` directly followed by `X['k'] = v` (call-free values) -> the key joins the display;
+    `X = [..]` directly followed by `X.append(e)` -> e joins the display
+  * `if c: S[e1] else: S[e2]` (single statements equal but for one sub-expression, c simple) -> `S[e1 if c else e2]`
 Line numbers of the original nodes are kept on the rewritten ones.
 """
 import ast
@@ -227,6 +230,18 @@ class ExprCanon(ast.NodeTransformer):
 
     def visit_Call(self, node):
         self.generic_visit(node)
+        f0 = node.func
+        # map(f, X) -> (f(_m) for _m in X)   (one iterable, f a plain name / attribute)
+        if isinstance(f0, ast.Name) and f0.id == "map" and len(node.args) == 2 and not node.keywords and isinstance(node.args[0], (ast.Name, ast.Attribute)):
+            var = "_m"
+            call = _loc(ast.Call(func=node.args[0], args=[_loc(ast.Name(id=var, ctx=ast.Load()), node)], keywords=[]), node)
+            gen = ast.comprehension(target=_loc(ast.Name(id=var, ctx=ast.Store()), node), iter=node.args[1], ifs=[], is_async=0)
+            return _loc(ast.GeneratorExp(elt=call, generators=[gen]), node)
+        # F([... for ...]) -> F(... for ...) for consumers of any iterable
+        consumer = (isinstance(f0, ast.Name) and f0.id in ("set", "list", "tuple", "sorted", "any", "all", "sum", "dict", "frozenset", "max", "min")) or (isinstance(f0, ast.Attribute) and f0.attr == "join")
+        if consumer and len(node.args) == 1 and not node.keywords and isinstance(node.args[0], ast.ListComp):
+            lc = node.args[0]
+            node.args = [_loc(ast.GeneratorExp(elt=lc.elt, generators=lc.generators), lc)]
         # 'literal {} {!r}'.format(a, b) -> f-string
         f = node.func
         if isinstance(f, ast.Attribute) and f.attr == "format" and isinstance(f.value, ast.Constant) and isinstance(f.value.value, str) and not node.keywords and not any(isinstance(a, ast.Starred) for a in node.args):
@@ -298,6 +313,99 @@ def _fold_dict_stores(stmts):
     return out
 
 
+def _fold_list_appends(stmts):
+    """`X = [..]` directly followed by `X.append(e)` (e not mentioning X)  ->  e joins the display"""
+    out = []
+    for s in stmts:
+        prev = out[-1] if out else None
+        if (
+            prev is not None
+            and isinstance(prev, ast.Assign)
+            and len(prev.targets) == 1
+            and isinstance(prev.targets[0], ast.Name)
+            and isinstance(prev.value, ast.List)
+            and not any(isinstance(x, ast.Starred) for x in prev.value.elts)
+            and isinstance(s, ast.Expr)
+            and isinstance(s.value, ast.Call)
+            and isinstance(s.value.func, ast.Attribute)
+            and s.value.func.attr == "append"
+            and isinstance(s.value.func.value, ast.Name)
+            and s.value.func.value.id == prev.targets[0].id
+            and len(s.value.args) == 1
+            and not s.value.keywords
+            and not _mentions(s.value.args[0], prev.targets[0].id)
+        ):
+            prev.value.elts.append(s.value.args[0])
+            continue
+        out.append(s)
+    return out
+
+
+def _simple_test(t):
+    return all(isinstance(n, (ast.Name, ast.Constant, ast.Compare, ast.BoolOp, ast.UnaryOp, ast.Attribute, ast.Subscript, ast.cmpop, ast.boolop, ast.unaryop, ast.expr_context, ast.Tuple)) for n in ast.walk(t))
+
+
+def _merge_arms(s):
+    """`if c: S[e1] else: S[e2]` (one statement each, equal but for one sub-expression)  ->  S[e1 if c else e2]"""
+    if not (len(s.body) == 1 and len(s.orelse) == 1 and type(s.body[0]) is type(s.orelse[0]) and isinstance(s.body[0], (ast.Expr, ast.Assign, ast.Return)) and _simple_test(s.test)):
+        return s
+    b, o = s.body[0], s.orelse[0]
+    if _dump(b) == _dump(o):
+        return s
+    hole = _single_difference(b, o)
+    if hole is None:
+        return s
+    parent, field, idx, e1, e2 = hole
+    if parent is b:
+        return s  # the whole value differs: a genuine two-way statement, kept
+    if not (isinstance(e1, ast.expr) and isinstance(e2, ast.expr)) or isinstance(getattr(e1, "ctx", None), (ast.Store, ast.Del)):
+        return s
+    ife = ExprCanon().visit_IfExp(_loc(ast.IfExp(test=s.test, body=e1, orelse=e2), e1))
+    if idx is None:
+        setattr(parent, field, ife)
+    else:
+        getattr(parent, field)[idx] = ife
+    return ast.fix_missing_locations(_loc(b, s))
+
+
+def _single_difference(a, b):
+    """(parent in a, field, index, sub-expression of a, sub-expression of b) when the trees differ in exactly one
+    expression position; None otherwise"""
+    if type(a) is not type(b):
+        return None
+    diffs = []
+    for f in a._fields:
+        if f in ("ctx",):
+            continue
+        x, y = getattr(a, f, None), getattr(b, f, None)
+        if isinstance(x, list) and isinstance(y, list):
+            if len(x) != len(y):
+                return None
+            for i, (p, q) in enumerate(zip(x, y)):
+                if isinstance(p, ast.AST) and isinstance(q, ast.AST):
+                    if _dump(p) != _dump(q):
+                        diffs.append((f, i, p, q))
+                elif p != q:
+                    return None
+        elif isinstance(x, ast.AST) and isinstance(y, ast.AST):
+            if _dump(x) != _dump(y):
+                diffs.append((f, None, x, y))
+        elif x != y:
+            return None
+    if len(diffs) != 1:
+        return None
+    f, i, p, q = diffs[0]
+    # prefer the outermost expression position that still differs in one place below a non-expression
+    if isinstance(p, ast.expr) and isinstance(q, ast.expr):
+        deeper = _single_difference(p, q) if type(p) is type(q) and isinstance(p, (ast.Call, ast.Attribute, ast.Subscript, ast.BinOp, ast.Tuple, ast.List, ast.keyword, ast.Starred, ast.JoinedStr, ast.FormattedValue)) else None
+        if deeper is not None and isinstance(p, ast.Call) and deeper[1] in ("args", "keywords"):
+            return deeper
+        if deeper is not None and not isinstance(p, ast.Call):
+            return deeper
+        return (a, f, i, p, q)
+    return _single_difference(p, q)
+
+
 def _mentions(node, name):
     return any(isinstance(n, ast.Name) and n.id == name for n in ast.walk(node))
 
@@ -362,6 +470,8 @@ def canon_block(stmts):
     if len(stmts) > 1:
         stmts = [s for s in stmts if not isinstance(s, ast.Pass)] or stmts[:1]
     stmts = _fold_dict_stores(stmts)
+    stmts = _fold_list_appends(stmts)
+    stmts = [_merge_arms(s) if isinstance(s, ast.If) else s for s in stmts]
     stmts = _loops_to_comprehensions(stmts)
     # from the end: `if c: A(exits)` + rest -> if c: A else: rest
     res = []
